@@ -1,0 +1,27 @@
+//go:build verif
+
+// Package verif provides the schedule gates used by the out-of-tree verification harness (/verif).
+package verif
+
+import "sync/atomic"
+
+type hookFn func(point string, obj interface{})
+
+var hook atomic.Value // hookFn
+
+// SetHook installs (or, with nil, removes) the function called at every gate. The function may record the
+// point (linearization-point tracing) or block (scheduler gate).
+func SetHook(f func(point string, obj interface{})) {
+	if f == nil {
+		hook.Store(hookFn(nil))
+		return
+	}
+	hook.Store(hookFn(f))
+}
+
+// At marks a scheduling point.
+func At(point string, obj interface{}) {
+	if f, _ := hook.Load().(hookFn); f != nil {
+		f(point, obj)
+	}
+}
